@@ -141,6 +141,20 @@ def main(argv=None) -> int:
             tasks.append((prop.id, c.name, a.tier, a.seed, s, ns))
     jobs = a.jobs or min(16, os.cpu_count() or 1, max(1, len(tasks)))
     results = []
+    # second engine (thorough tier): atheris sub-processes run alongside the pool
+    fuzz_procs = []
+    if a.tier == "thorough":
+        import subprocess
+        import tempfile
+
+        for c in prop.clauses:
+            if c.fuzz and c.kind == "given" and (not a.clause or c.name in a.clause):
+                sf = tempfile.NamedTemporaryFile(prefix="vf_fuzzstats_", suffix=".json", delete=False)
+                sf.close()
+                pr = subprocess.Popen([sys.executable, "-m", "vf.fuzz_atheris", prop.id, c.name,
+                                       "--runs", str(c.fuzz), "--seed", str(a.seed), "--stats", sf.name],
+                                      cwd=H.VERIF_DIR, stdout=subprocess.DEVNULL, stderr=subprocess.DEVNULL)
+                fuzz_procs.append((c.name, pr, sf.name))
     if jobs == 1:
         for t in tasks:
             results.append(H.run_task(*t))
@@ -156,6 +170,38 @@ def main(argv=None) -> int:
                 except Exception as e:  # noqa
                     errors.append(f"task {futs[fu][1:]}: {type(e).__name__}: {e}")
     results.sort(key=lambda r: (r["clause"], r["shard"]))
+    fuzz_report = {}
+    for cname, pr, sfile in fuzz_procs:
+        try:
+            frc = pr.wait(timeout=900)
+        except Exception:  # noqa
+            pr.kill()
+            frc = -9
+        try:
+            st_ = json.load(open(sfile))
+        except Exception:  # noqa
+            st_ = {}
+        try:
+            os.remove(sfile)
+        except OSError:
+            pass
+        st_["exit"] = frc
+        if frc == 77 and st_.get("violation"):
+            v = st_["violation"]
+            violations.append((cname, dict(case=None, sig=v["sig"], msg="[atheris] " + v["msg"]), v["replay"]))
+        elif frc == 3:
+            st_["status"] = "skipped: atheris not available (inconclusive)"
+        elif frc not in (0, 77):
+            st_["status"] = f"fuzz stage ended with exit {frc} (inconclusive, not a violation)"
+        else:
+            st_["status"] = "ok"
+        fuzz_report[cname] = st_
+    if fuzz_procs:
+        import glob
+        import shutil
+
+        for d_ in glob.glob(os.path.join(H.VERIF_DIR, ".deps", "vf_fuzz_*")):
+            shutil.rmtree(d_, ignore_errors=True)
 
     # 4. merge
     evaluations = corpus_rec.evaluations
@@ -242,6 +288,10 @@ def main(argv=None) -> int:
         jobs=jobs,
         repo=H.REPO_DIR,
     )
+    if fuzz_report:
+        coverage["atheris"] = fuzz_report
+        evaluations_f = sum(int(v.get("executions", 0)) for v in fuzz_report.values())
+        coverage["atheris_executions"] = evaluations_f
     ev = dict(
         property_id=prop.id, tier=a.tier, seed=int(a.seed), level=LEVEL, coverage=coverage,
         assumptions=prop.assumptions, wall_s=round(wall, 2), violations=len(violations),
